@@ -245,7 +245,10 @@ def get_Eewald(atoms, gcut=2, gamma=1e-8):
 
     # Calculate the real-space contribution
     # Calculate the amount of images that have to be considered per axis
-    Rm = xp.linalg.norm(atoms.a, axis=1)
+    # Use the distances between the lattice planes, for non-orthogonal cells they are smaller than the
+    # lengths of the lattice vectors and a box built from the lengths would not contain the cut-off sphere
+    g = 2 * math.pi * xp.linalg.inv(atoms.a.T)
+    Rm = 2 * math.pi / xp.linalg.norm(g, axis=1)
     tmax = math.sqrt(0.5 * gexp) / nu
     s = xp.round(tmax / Rm + 1.5)
     # Collect all box index vectors in a matrix
@@ -255,8 +258,7 @@ def get_Eewald(atoms, gcut=2, gamma=1e-8):
 
     # Calculate the reciprocal space contribution
     # Calculate the amount of reciprocal images that have to be considered per axis
-    g = 2 * math.pi * xp.linalg.inv(atoms.a.T)
-    gm = xp.linalg.norm(g, axis=1)
+    gm = 2 * math.pi / xp.linalg.norm(atoms.a, axis=1)
     s = xp.round(gcut / gm + 1.5)
     # Collect all box index vectors in a matrix
     M = get_index_vectors(s)
